@@ -87,6 +87,7 @@ pub fn run_workers(
                     let mut child = Command::new(&exe)
                         .args(&base_args)
                         .args(["--child", &k.to_string(), &n.to_string(), "--resume-after", &resume_after.to_string(), "--resume-sno", &resume_sno.to_string()])
+                        .env("RUST_BACKTRACE", "0")
                         .stdout(Stdio::piped())
                         .stderr(Stdio::piped())
                         .spawn()
